@@ -183,7 +183,7 @@ mod model {
     static NEXT_ID: std::sync::atomic::AtomicU64 = std::sync::atomic::AtomicU64::new(0);
     thread_local! { static LOCAL_ID: std::cell::Cell<u64> = const { std::cell::Cell::new(0) }; }
 
-    pub fn bounded<T>(cap: usize) -> (Sender<T>, Receiver<T>) {
+    pub fn bounded<T: 'static>(cap: usize) -> (Sender<T>, Receiver<T>) {
         let _ = &NEXT_ID;
         // ids are per OS thread (= per execution) so that event-log hashes are reproducible
         let id = LOCAL_ID.with(|c| {
@@ -195,14 +195,40 @@ mod model {
             st: Mutex::new(State { queue: VecDeque::new(), cap, senders: 1, receivers: 1, waiting: 0, id }),
             cv: Condvar::new(),
         });
+        register_waker(&sh);
         (Sender { sh: sh.clone() }, Receiver { sh, budget: std::cell::Cell::new(TIMEOUT_BUDGET) })
+    }
+
+    /// let `force_timeouts` wake the receivers of this channel
+    fn register_waker<T: 'static>(sh: &Arc<Shared<T>>) {
+        let sh = sh.clone();
+        WAKERS.with(|w| w.borrow_mut().push(Box::new(move || sh.cv.notify_all())));
     }
 
     pub fn reset_ids() {
         LOCAL_ID.with(|c| c.set(0));
+        FORCED.with(|c| c.set(0));
+        WAKERS.with(|w| w.borrow_mut().clear());
     }
 
-    pub fn unbounded<T>() -> (Sender<T>, Receiver<T>) {
+    thread_local! {
+        /// timeouts the simulator has decided must fire (idle-gap fault): the next receivers that wait on an
+        /// empty queue with `recv_timeout` time out at once, one per unit
+        static FORCED: std::cell::Cell<u32> = const { std::cell::Cell::new(0) };
+        static WAKERS: std::cell::RefCell<Vec<Box<dyn Fn()>>> = const { std::cell::RefCell::new(Vec::new()) };
+    }
+
+    /// Simulated passage of idle time: `n` pending `recv_timeout` waits on empty queues time out now.
+    pub fn force_timeouts(n: u32) {
+        FORCED.with(|c| c.set(c.get() + n));
+        WAKERS.with(|w| {
+            for f in w.borrow().iter() {
+                f();
+            }
+        });
+    }
+
+    pub fn unbounded<T: 'static>() -> (Sender<T>, Receiver<T>) {
         bounded(usize::MAX)
     }
 
@@ -312,8 +338,16 @@ mod model {
                     ev(6, st.id, |e| e.disconnects_seen += 1);
                     return Err(RecvTimeoutError::Disconnected);
                 }
-                // empty queue, senders alive: the timer may fire
-                if self.coin() {
+                // empty queue, senders alive: the timer fires if the simulator says idle time has passed, or may fire
+                let forced = FORCED.with(|c| {
+                    if c.get() > 0 {
+                        c.set(c.get() - 1);
+                        true
+                    } else {
+                        false
+                    }
+                });
+                if forced || self.coin() {
                     st.waiting -= 1;
                     ev(5, st.id, |e| e.timeouts_empty += 1);
                     return Err(RecvTimeoutError::Timeout);
